@@ -40,7 +40,7 @@ def run_group(rec, probs):
         run_problem(rec, PROBS[pname], kw, key_prefix=f"{pname}/{key}:", timeout_ms=60000, max_paths=300)
 
 
-def case_oracle_roots(rec, n_inner, step_size):
+def case_oracle_roots(rec, n_inner, step_size, variant="identity"):
     """'Fails loudly' with a projection solver that may return ANY root: unit circle constraint, identity metric, concrete
     start states; the solver handed to the real ConstrainedLeapfrogIntegrator picks - as an explorer choice per call - either
     intersection of the projection line with the circle (both satisfy the solver's contract).  Every choice sequence must
@@ -51,17 +51,30 @@ def case_oracle_roots(rec, n_inner, step_size):
     from symx import weights as W
     from mici.errors import IntegratorError, ConvergenceError
     I, S, ChainState = L.I, L.S, L.ChainState
+    M_ = L.M
     rec.encoded(I.ConstrainedLeapfrogIntegrator._step_b, I.ConstrainedLeapfrogIntegrator._step, I.ConstrainedLeapfrogIntegrator._h2_flow_retraction_onto_manifold)
-    system = S.DenseConstrainedEuclideanMetricSystem(lambda q: 0.0, lambda q: np.array([q @ q - 1.0]), grad_neg_log_dens=lambda q: 0 * q,
-                                                     jacob_constr=lambda q: 2 * q[None, :])
+    if variant == "identity":
+        m_diag = np.ones(2)
+        system = S.DenseConstrainedEuclideanMetricSystem(lambda q: 0.0, lambda q: np.array([q @ q - 1.0]), grad_neg_log_dens=lambda q: 0 * q,
+                                                         jacob_constr=lambda q: 2 * q[None, :])
+    else:
+        # non-identity metric, density w.r.t. the Lebesgue measure of the ambient space (the Gram log-determinant force is part of
+        # h1 and is neither zero nor normal to the circle), non-constant potential
+        m_diag = np.array([1.0, 2.5])
+        w = np.array([1.0, 3.0])
+        system = S.DenseConstrainedEuclideanMetricSystem(
+            lambda q: 0.5 * (w * q) @ q, lambda q: np.array([q @ q - 1.0]), metric=M_.PositiveDiagonalMatrix(m_diag.copy()),
+            dens_wrt_hausdorff=False, grad_neg_log_dens=lambda q: w * q, jacob_constr=lambda q: 2 * q[None, :],
+            mhp_constr=lambda q: (lambda m: 2 * m[0]))
     viol = {}
+    outcomes = {}
     starts = [(0.3, 0.9), (1.2, -0.7), (2.1, 0.4), (4.0, 1.6), (5.5, -2.2)]
     policy = [0]
 
     def oracle(state, state_prev, time_step, system_, **kw):
         # pos_new = pos - |t| * J_prev^T lam ; mom_new = mom - sign(t) * J_prev^T lam ; |pos_new|^2 = 1
         a = state.pos
-        b = abs(time_step) * 2 * state_prev.pos
+        b = abs(time_step) * 2 * state_prev.pos / m_diag
         A, B, C = b @ b, -2 * (a @ b), a @ a - 1.0
         disc = B * B - 4 * A * C
         if disc < 0:
@@ -71,7 +84,7 @@ def case_oracle_roots(rec, n_inner, step_size):
         # backward call of the same solver); WHICH deterministic root-selection rule it implements is the explorer's choice
         pol = policy[0]
         by_abs = sorted(roots, key=abs)
-        cand_pos = [state.pos - abs(time_step) * 2 * state_prev.pos * r for r in roots]
+        cand_pos = [state.pos - abs(time_step) * 2 * state_prev.pos / m_diag * r for r in roots]
         if pol == 0:
             lam = by_abs[0]
         elif pol == 1:
@@ -83,12 +96,12 @@ def case_oracle_roots(rec, n_inner, step_size):
         else:
             lam = roots[0] if cand_pos[0][1] >= cand_pos[1][1] else roots[1]
         mu = 2 * state_prev.pos * lam
-        state.pos = state.pos - abs(time_step) * mu
+        state.pos = state.pos - abs(time_step) * mu / m_diag
         state.mom = state.mom - np.sign(time_step) * mu
         return state
     for th_, om in starts:
         q0 = np.array([math.cos(th_), math.sin(th_)])
-        p0 = om * np.array([-math.sin(th_), math.cos(th_)])
+        p0 = om * m_diag * np.array([-math.sin(th_), math.cos(th_)])  # cotangent: J M^-1 p = 0
 
         def fn(ctx):
             policy[0] = ctx.decide(5)
@@ -107,6 +120,7 @@ def case_oracle_roots(rec, n_inner, step_size):
             return ("ret", float(max(np.max(np.abs(s2.pos - q0)), np.max(np.abs(s2.mom - p0)))))
         for res, ctx in W.wexplore(fn, max_paths=100000):
             rec.path()
+            outcomes[res[0]] = outcomes.get(res[0], 0) + 1
             rec.decisions += len(ctx.trace)
             if res[0] == "ret" and not res[1] < 1e-6:
                 viol.setdefault("non-reversible-return", (f"start angle {th_}, speed {om}, n_inner_step={n_inner}, step {step_size}: step() returned a state "
@@ -116,9 +130,11 @@ def case_oracle_roots(rec, n_inner, step_size):
                 viol.setdefault("non-reversible-return", (f"start angle {th_}, speed {om}: step() returned a state from which the reversed step fails",
                                                           [th_, om, [k for k, _ in ctx.trace]]))
     for k, (msg, data) in viol.items():
-        rec.candidate(key=f"oracle_roots:{k}", label=msg, payload={"oracle": data, "n_inner": n_inner, "step": step_size})
-    rec.note(f"{rec.paths} root-choice sequences")
-    rec.obligation(f"oracle projection roots, n_inner_step={n_inner}, step {step_size}: every returned state reverses ({rec.paths} choice sequences)",
+        rec.candidate(key=f"oracle_roots/{variant}:{k}", label=msg, payload={"oracle": data, "n_inner": n_inner, "step": step_size, "variant": variant})
+    rec.note(f"{rec.paths} root-choice sequences: {outcomes}")
+    if not outcomes.get("ret"):
+        rec.errors.append("vacuous: no choice sequence returned a state")
+    rec.obligation(f"oracle projection roots ({variant}), n_inner_step={n_inner}, step {step_size}: every returned state reverses ({rec.paths} choice sequences)",
                    [], z3.BoolVal(False), syntactic=True)
 
 
@@ -128,6 +144,9 @@ def cases(tier):
     for n_inner in (1, 2, 3):
         for step in (0.4, 0.9):
             out.append(Case(f"oracle_roots/inner{n_inner}/step{step}", case_oracle_roots, {"n_inner": n_inner, "step_size": step}, timeout_s=600))
+            if step == 0.4:
+                out.append(Case(f"oracle_roots_lebesgue/inner{n_inner}/step{step}", case_oracle_roots,
+                                {"n_inner": n_inner, "step_size": step, "variant": "diag_lebesgue"}, timeout_s=600))
 
     def G(name, pname, kw, timeout_s=900):
         out.append(Case(name, run_group, {"probs": [(pname, kw)]}, timeout_s=timeout_s))
